@@ -211,9 +211,76 @@ pub fn k_threads<T: Real>(case: &Case) -> Outcome {
             Err(_) => return Outcome::bad("isolated call crashed its thread"),
         }
     }
-    // call-history determinism on one thread: interleave all items twice
+    // cold start: an instance NO call has touched yet receives its first calls from all threads at once (lazy initialisation
+    // on first use is where a shared instance is most fragile). Expected bits come from a twin instance built by a second
+    // planner from the same requests (C10: such twins produce bit-identical outputs) and from the warm instance above.
+    let mut cold_calls = 0u64;
+    for trial in 0..3usize {
+        let cold = match obtain_uncached::<T>(case) {
+            Ok(f) => f,
+            Err(o) => return o,
+        };
+        let barrier = Arc::new(Barrier::new(threads));
+        let failure: Arc<std::sync::Mutex<Option<String>>> = Arc::new(std::sync::Mutex::new(None));
+        std::thread::scope(|s| {
+            for t in 0..threads {
+                let cold = Arc::clone(&cold);
+                let barrier = Arc::clone(&barrier);
+                let failure = Arc::clone(&failure);
+                let items = &items;
+                let reference = &reference;
+                s.spawn(move || {
+                    pristine_fp_env();
+                    let i = (t + trial) % items.len();
+                    let (v, e, _) = &items[i];
+                    let mut data = v.clone();
+                    let mut out = if result_in_out(*e) { vec![Complex { re: T::of_f64(0.0), im: T::of_f64(0.0) }; v.len()] } else { vec![] };
+                    let mut scratch = vec![Complex { re: T::of_f64(0.0), im: T::of_f64(0.0) }; adv_scratch(&*cold, *e)];
+                    barrier.wait();
+                    let r = catch(|| raw_call(&*cold, *e, &mut data, &mut out, &mut scratch));
+                    if let Err(p) = r {
+                        *failure.lock().unwrap() = Some(format!("first concurrent call on a fresh instance panicked: {} @ {}", p.msg, p.loc));
+                        return;
+                    }
+                    let res: &[Complex<T>] = if result_in_out(*e) { &out } else { &data };
+                    if !bits_eq(res, &reference[i]) {
+                        let j = res.iter().zip(reference[i].iter()).position(|(a, b)| a.re.bits() != b.re.bits() || a.im.bits() != b.im.bits()).unwrap_or(0);
+                        *failure.lock().unwrap() = Some(format!(
+                            "first call on a fresh instance, made concurrently by {} threads (thread {}, item {}, {:?}, trial {}), returned ({},{}) at element {} where an isolated call on an identically planned instance returns ({},{})",
+                            threads, t, i, e, trial, res[j].re, res[j].im, j, reference[i][j].re, reference[i][j].im
+                        ));
+                    }
+                });
+            }
+        });
+        if let Some(f) = failure.lock().unwrap().take() {
+            return Outcome::bad(f);
+        }
+        cold_calls += threads as u64;
+    }
+    // call-history determinism on one thread: interleave all items twice; before the second round every entry point is
+    // called once with an ill-shaped buffer (the documented panic is caught; once here, once on a thread that then ends) --
+    // a failed call must not change what later valid calls on the instance return
     pristine_fp_env();
-    for round in 0..2 {
+    for round in 0..3 {
+        if round >= 1 && n >= 2 {
+            let bad_len = n + 1;
+            let zero = Complex { re: T::of_f64(0.0), im: T::of_f64(0.0) };
+            for e in ENTRIES {
+                let f = Arc::clone(&fft);
+                let call = move || {
+                    let mut d = vec![zero; bad_len];
+                    let mut o = if result_in_out(e) { vec![zero; bad_len] } else { vec![] };
+                    let mut sc = vec![zero; adv_scratch(&*f, e)];
+                    let _ = catch(|| raw_call(&*f, e, &mut d, &mut o, &mut sc));
+                };
+                if round == 1 {
+                    call();
+                } else {
+                    let _ = std::thread::spawn(call).join();
+                }
+            }
+        }
         for (i, (v, e, _)) in items.iter().enumerate() {
             match transform(&*fft, *e, v) {
                 Ok(o) => {
@@ -221,7 +288,14 @@ pub fn k_threads<T: Real>(case: &Case) -> Outcome {
                         return Outcome::bad(format!("call #{} (round {}) on one thread returned different bits than an isolated call on a fresh thread (item {}, {:?})", i, round, i, e));
                     }
                 }
-                Err(p) => return Outcome::bad(format!("well-shaped call panicked: {} @ {}", p.msg, p.loc)),
+                Err(p) => {
+                    return Outcome::bad(format!(
+                        "well-shaped call panicked{}: {} @ {}",
+                        if round >= 1 { " after an earlier ill-shaped call on the same instance had ended in its documented panic" } else { "" },
+                        p.msg,
+                        p.loc
+                    ))
+                }
             }
         }
     }
@@ -292,6 +366,7 @@ pub fn k_threads<T: Real>(case: &Case) -> Outcome {
     }
     Outcome::held(overlapped.load(std::sync::atomic::Ordering::Relaxed) >= 2)
         .count("concurrent calls compared bitwise", (threads * rounds) as u64)
+        .count("cold-start first calls compared bitwise", cold_calls)
         .label(format!("len:{}", crate::gen::classify_len(n)))
         .label(format!("threads:{}", threads))
 }
